@@ -208,15 +208,16 @@ def configs(quick):
         return txt
     ion_variants = [
         ("ion_both_diffuse", base_ion),
-        ("ion_nodiffuse", sub(base_ion, diffuse_field="false")),
+        ("ion_nodiffuse", sub(base_ion, diffuse_field="false", number_of_photons="4999")),      # odd request shared by a discrete and a continuous source
         ("ion_discrete_only_777", re.sub(r"ContinuousPhotonSource:.*?total flux: 1.e8 m\^-2 s\^-1\n", "", sub(base_ion, number_of_photons="777"), flags=re.S)),
         ("ion_periodic_222", sub(base_ion, periodicity="[true, true, true]", number_of_subgrids="[2, 2, 2]", number_of_photons="2000")),
         ("ion_1subgrid_400", base_o7),
+        ("ion_1subgrid_cont_700", sub(base_o7, number_of_photons="700")),       # continuous source only: 3 full batches + one partial batch, fewer batches than threads at 4 threads
         ("ion_copies2", sub(base_ion, source_copy_level="2", number_of_photons="3001")),
         ("ion_1x1x2_periodic", sub(base_ion, periodicity="[false, false, true]", number_of_subgrids="[1, 1, 2]", number_of_photons="1200")),
     ]
     threads = [1, 2, 4] if quick else [1, 2, 3, 4, 8]
-    for name, txt in ion_variants if not quick else ion_variants[:5]:
+    for name, txt in ion_variants if not quick else ion_variants[:6]:
         for th in threads:
             C.append((name + "_t%d" % th, ["--task-based"], txt, th))
     for th in ([2] if quick else [1, 2, 4]):
@@ -241,10 +242,21 @@ def run_one(exe, validator, base, cfg, tt, perturb=False, serialize=True):
         # operations; the interleaving of the steps is still chosen by the OS scheduler
         env["CMI_VERIF_SERIALIZE"] = "1"
     validate = serialize and not perturb
-    rc, out = vf.sh([exe] + args + ["--params", "run.param", "--threads", str(th), "--dirty"], cwd=d, timeout=120, env=env)
+    # a run that does not terminate logs failed fetches without end: bound the trace (1.5 GB) and the time (a healthy run takes < 2 s)
+    rc, out = vf.sh(["bash", "-c", 'ulimit -f 1500000; exec "$@"', "run", exe] + args + ["--params", "run.param", "--threads", str(th), "--dirty"], cwd=d, timeout=60, env=env)
     res = {"name": name, "rc": rc, "iterations": [], "errors": [], "labels": 0, "hist": {}}
     if rc != 0:
-        res["errors"].append("real run exits with status %d (124 = did not finish within 120 s): %s" % (rc, out[-300:]))
+        extra = ""
+        try:     # what the trace has of the first iteration: packets carried by the source tasks against the request
+            ev = [l.split() for l in open(trace).read(4 << 20).splitlines()[:-1]]      # a hanging run logs failed fetches without end: only the head is needed
+            beg = [e for e in ev if len(e) > 4 and e[1] == "ITER_BEGIN"]
+            if beg:
+                k = ev.index(beg[0])
+                launched = sum(int(e[5]) for e in ev[:k] if e[1] == "SRCTASK")
+                extra = "; source tasks of the first iteration carry %d packets, requested %s" % (launched, beg[0][4])
+        except Exception:
+            pass
+        res["errors"].append("real run exits with status %d (124 = did not finish within 60 s, 153 = trace size limit reached while spinning)%s: %s" % (rc, extra, out[-300:]))
         shutil.rmtree(d, ignore_errors=True)
         return res
     lines = open(trace).read().splitlines()
@@ -486,14 +498,14 @@ def run(ck):
         for f in futs:
             results.append(f.result())
     # the O7 schedule on the real binary: with the perturbation hook the repaired loop must still finish
-    hung = sum(1 for r in results if r["rc"] == 124)
+    hung = sum(1 for r in results if r["rc"] in (124, 153, -25, 137))
     o7 = [] if hung >= 2 else [c for c in cfgs if c[0].startswith("ion_1subgrid_400_t4") or c[0].startswith("ion_1subgrid_400_t2")]
     reps = 4 if ck.quick else 16
     for c in o7[:1]:
         for k in range(reps):
             r = run_one(exe, val, d, (c[0] + "_hold%d" % k,) + c[1:], tt, perturb=True, serialize=False)
             results.append(r)
-            if r["rc"] == 124:
+            if r["rc"] in (124, 153, -25):
                 ck.violation("C01: with a thread that fetched a flush task in the else branch delayed until the run flag is cleared, the NEXT iteration never finishes: a fetched task was dropped and its dependency stays locked",
                              {"config": c[0], "threads": c[3], "perturbation": "CMI_VERIF_HOLD_ELSE_FLUSH", "exit": r["rc"]}, key={"kind": "else_fetch_dropped"})
     nlabels = sum(r["labels"] for r in results)
@@ -505,7 +517,7 @@ def run(ck):
         if r["labels"] and not r["errors"]:
             sigs.add((re.sub(r"_hold\d+$", "", r["name"]), tuple(sorted(r["hist"].items()))))
         for e in r["errors"]:
-            if r["rc"] == 124 and any(v["key"].get("kind") == "else_fetch_dropped" for v in ck.violations):
+            if r["rc"] in (124, 153, -25) and any(v["key"].get("kind") == "else_fetch_dropped" for v in ck.violations):
                 continue
             if "REAL code" in e or "exits with status" in e:
                 ck.violation("C01 fails on the real binary (%s): %s" % (r["name"], e), {"config": r["name"], "error": e, "iterations": r["iterations"][:3]},
@@ -524,7 +536,7 @@ def run(ck):
     cov["samples"] = [{"config": r["name"], "iterations": r["iterations"][:2]} for r in results[:2]]
     ck.assumptions += ["task bodies are atomic in the model (lock discipline + C08); a real interleaving that is not a run of the model shows up as a replay error",
                        "extraction: ExtrOcamlBasic + ExtrOcamlNatInt (nat -> OCaml int); OCaml validator trusted for the tie",
-                       "liveness is not proved; runs that do not finish within 120 s are reported"]
+                       "liveness is not proved; runs that do not finish within 60 s are reported"]
     ck.resolve_breaks_without_input()
 
 
